@@ -4,6 +4,7 @@ import (
 	"bytes"
 	"context"
 	"encoding/json"
+	"fmt"
 	"math/rand"
 	"sort"
 
@@ -11,6 +12,7 @@ import (
 	"verifharness/tr"
 
 	"github.com/0chain/common/core/util"
+	"github.com/linxGnu/grocksdb"
 )
 
 // SyncPlan is one missing-node scenario: a content, the positions of the
@@ -129,7 +131,18 @@ func RunSync(w *tr.Writer, st *SyncStats, tid int, plan SyncPlan, rnd *rand.Rand
 		}
 	}
 	// partial store and donor
-	partial := util.NewMemoryNodeDB()
+	// the incomplete store rotates over the kinds a node really has: memory, persistent, a memory level over persistent
+	var partial util.NodeDB = util.NewMemoryNodeDB()
+	if k := tid % 4; k == 1 || k == 2 {
+		pdirSeq++
+		dir := fmt.Sprintf("stub-%d", pdirSeq)
+		pp, err := util.NewPNodeDB(dir, "log")
+		if err != nil {
+			panic(err)
+		}
+		defer grocksdb.DropStore(dir)
+		partial = pp
+	}
 	donor := util.NewMemoryNodeDB()
 	_ = full.Iterate(context.Background(), func(ctx context.Context, key util.Key, node util.Node) error {
 		if absentKeys[string(key)] {
@@ -137,6 +150,9 @@ func RunSync(w *tr.Writer, st *SyncStats, tid int, plan SyncPlan, rnd *rand.Rand
 		}
 		return partial.PutNode(key, node)
 	})
+	if tid%4 == 2 {
+		partial = util.NewLevelNodeDB(util.NewMemoryNodeDB(), partial, false)
+	}
 	if plan.Extra {
 		et := util.NewMerklePatriciaTrie(donor, util.Sequence(vers[0]+5), nil, NewTxnCache())
 		et.Insert(util.Path("ee01"), Val([]byte("x")))
